@@ -86,6 +86,9 @@ def strategy_impl(draw, tier):
         "call_boundary": call_boundary,
         "call_fill": call_fill,
         "reverse_mappings": draw(st.booleans()),  # list the entries of every mapping argument in the opposite order
+        "explicit_none": draw(st.booleans()),     # pass boundary=None / fill_value=None / to=None explicitly instead of omitting them
+        "keep_coords": draw(st.sampled_from([None, True, False])),
+        "data_name": draw(st.sampled_from(["phi", None])),
     }
 
 
@@ -113,6 +116,11 @@ def call_kwargs(case, to):
         kw["boundary"] = build.copy_arg(case["call_boundary"], rev)
     if case["call_fill"] is not None:
         kw["fill_value"] = build.copy_arg(case["call_fill"], rev)
+    if case.get("explicit_none"):
+        for k in ("to", "boundary", "fill_value"):
+            kw.setdefault(k, None)
+    if case.get("keep_coords") is not None:
+        kw["keep_coords"] = case["keep_coords"]
     return kw
 
 
@@ -150,7 +158,7 @@ def check(case, ctx):
             targets[n] = M.default_target(by_name[n]["positions"], case["data_pos"][n], by_name[n]["default_shifts"])
     exp, exp_dims, nontrivial = expected(case, by_name, rules, fills, targets)
 
-    da = build.data_array(case["values"], case["dims"], name="phi")
+    da = build.data_array(case["values"], case["dims"], name=case.get("data_name", "phi"))
     fn = getattr(grid, case["op"])
     kw = call_kwargs(case, case["to"])
     got = must_return(f"Grid.{case['op']}", fn, da, spell_axis(case["op_axes"], case["axis_spelling"]), **kw)
